@@ -65,7 +65,9 @@ META["C04"] = dict(technique=_LT_TECH, note=_LT_NOTE,
 META["C06"] = dict(technique=_LT_TECH, note=_LT_NOTE,
     text="ReportedIsLive: after every event of every history (duplicate reports, same-uuid replacement, uuid reuse across peers, late and repeated "
          "losses) GetPeerLinks and the values of all link requests equal the abstract set 'established and not lost / not replaced'; every link that "
-         "left that set had Close called.")
+         "left that set had Close called. Transport half (QuicLinks.tla, model-checked incl. liveness of the lost callback): every history of <= 3 connect / vanish / close "
+         "events of remote endpoints (address x identity) against a real quic (pconn) transport + controller over an in-memory packet network; after each event the "
+         "registry equals the sessions still open (a usurped link is reported lost, a newer link survives the loss of the older one).")
 REGISTRY["C36"] = ("access", "run")
 META["C36"] = dict(
     technique="TLC exhaustive model checking of Access.tla; every TLC-enumerated callback history replayed on the real LookupRpcService (big-step and burst); recorded response streams validated by TLC (AccessMon.tla: observer + strict)",
